@@ -230,7 +230,15 @@ func (w *World) LoadL1(ctx context.Context, s *Stores, dense bool) error {
 // LoadL2Block feeds one closed L2 block to the L2 bridge store.
 func (w *World) LoadL2Block(ctx context.Context, s *Stores, b *Block) error {
 	if s.L2Bridge != nil {
-		if err := s.L2Bridge.VerifStore().ProcessBlock(ctx, w.L2BridgeBlock(b)); err != nil {
+		// through the real log handlers of the bridge syncer (logpath.go); what they append must be the chain's events
+		sb, err := w.L2BridgeBlockViaLogs(b)
+		if err != nil {
+			return fmt.Errorf("L2 bridge syncer, block %d: %w", b.Num, err)
+		}
+		if err := sameEvents(sb.Events, w.L2BridgeBlock(b).Events); err != nil {
+			return fmt.Errorf("L2 bridge syncer, block %d: %w", b.Num, err)
+		}
+		if err := s.L2Bridge.VerifStore().ProcessBlock(ctx, sb); err != nil {
 			return fmt.Errorf("L2 bridge store, block %d: %w", b.Num, err)
 		}
 	}
